@@ -18,6 +18,8 @@ class History:
 		os.makedirs(self.root)
 		self.clock = 1_700_000_000.0
 		self.cache_enabled = True
+		# half of the projects configure a template directory of their own that requests includes through emit_depends
+		self.user_templates = r.random() < 0.5
 		self.output_dirs = ['out/']
 		self.log: list[list] = []
 		self.edit_seq = 0
@@ -38,7 +40,8 @@ class History:
 
 	def write_config(self) -> None:
 		di = None if self.cache_enabled else {'rogw.tranp.cache.cache.CacheSetting': 'vf.cachecfg.cache_off'}
-		cli.write_config(self.root, [f'{self.hp.pkg}/**/*.py'], self.output_dirs, di=di)
+		tdirs = [cli.write_user_templates(self.root)] if self.user_templates else None
+		cli.write_config(self.root, [f'{self.hp.pkg}/**/*.py'], self.output_dirs, di=di, template_dirs=tdirs)
 
 	def edit(self, key: str, variant: dict) -> None:
 		self.hp.variants[key] = variant
@@ -99,7 +102,8 @@ class History:
 		os.makedirs(ref)
 		try:
 			cli.write_sources(ref, self.hp.sources())
-			cli.write_config(ref, [f'{self.hp.pkg}/**/*.py'], self.output_dirs)
+			tdirs = [cli.write_user_templates(ref)] if self.user_templates else None
+			cli.write_config(ref, [f'{self.hp.pkg}/**/*.py'], self.output_dirs, template_dirs=tdirs)
 			p = cli.run_cli(ref, ['-f'])
 			return cli.read_outputs(ref), cli.failed(p), (p.stdout + p.stderr)[-600:]
 		finally:
